@@ -211,17 +211,23 @@ def extract_tree(spec):
         if not spec.get("drop"):
             graph = graph.with_arguments(*inputs.values())
         b = _build.Builder(graph)
-        # discovery + scopes exactly as build_main does, then compile
+        # the whole real build (discovery, scopes, compilation); the emission tree is read off the
+        # Builder afterwards, so the harness depends only on the attributes it reads
+        from spox._scope import ScopeError
+
+        res, real = None, None
         try:
-            b.discover(b.main)
-            b.graph_topo.reverse()
-            for g in b.graph_topo:
-                b.update_scope_tree(g)
-            b.resolve_scopes()
+            res = b.build_main()
+        except ScopeError:
+            real = ("err", "scope")
+        except KeyError:
+            real = ("err", "key")
         except (AttributeError, TypeError, NameError, ImportError):
             raise  # the Builder no longer looks as expected: reported as 'not observable' by the caller
         except Exception as e:  # noqa: BLE001
-            return None, ("pre-err", type(e).__name__)
+            real = ("other-err", type(e).__name__)
+        if b.main not in b.scope_own:
+            return None, ("pre-err", real[1] if real else "?")
         vid, nid = Ids(), Ids()
 
         def node_json(node):
@@ -264,19 +270,19 @@ def extract_tree(spec):
             return {"args": args, "nodes": nodes, "results": [vid(v) for v in b.results_of[g]]}
 
         tree = graph_json(b.main)
-        try:
-            from spox._scope import Scope
-
-            res = b.compile_graph(b.main, Scope())
-            graph._build_result.value = res
-            proto = graph.to_onnx(concrete=True)
-            real = ("ok", L.proto_to_named(proto))
-        except ScopeError:
-            real = ("err", "scope")
-        except KeyError:
-            real = ("err", "key")
-        except Exception as e:  # noqa: BLE001
-            real = ("other-err", type(e).__name__)
+        if res is not None:
+            try:
+                graph._build_result.value = res
+                proto = graph.to_onnx(concrete=True)
+                real = ("ok", L.proto_to_named(proto))
+            except ScopeError:
+                real = ("err", "scope")
+            except KeyError:
+                real = ("err", "key")
+            except (AttributeError, TypeError, NameError, ImportError):
+                raise
+            except Exception as e:  # noqa: BLE001
+                real = ("other-err", type(e).__name__)
     return tree, real
 
 
@@ -338,14 +344,14 @@ def _case_worker(task):
     rng = random.Random(f"{seed}:{idx}")
     with warnings.catch_warnings():
         warnings.simplefilter("ignore")
-        feat = {"custom": True}
+        feat = {"custom": True, "generic": True}
         if mode == "naming":  # no version adaptation: every name is predictable
-            feat = {"mixed": False, "rmax": False, "custom": True}
+            feat = {"mixed": False, "rmax": False, "custom": True, "generic": True}
         g = L.Gen(rng, feat)
         spec = g.gen_spec()
         st, m = L.build_spec(spec)
         if st == "ok" and rng.random() < 0.7:
-            spec = L.rename_adversarial(spec, rng, L.harvest_names(m))
+            spec = L.rename_adversarial(spec, rng, L.harvest_names(m), L.harvest_names(m, nested_values_only=True))
             st, m = L.build_spec(spec)
         out = {"spec": spec, "status": st, "stats": L.spec_stats(spec)}
         if st == "err":
@@ -381,6 +387,9 @@ def classify(bad):
             if k == "walker":
                 import re
 
+                if re.fullmatch(r"dup-value:.+___v_\d+", d):
+                    # a user name equal to a value the version converter introduces (qualified by the node name)
+                    return "dup-value:user-name-equals-converter-name"
                 if re.fullmatch(r"dup-value:_v_\d+", d):
                     # a fresh name of onnx.version_converter kept by per-node adaptation (known finding)
                     return "dup-value:version-converter-fresh-name"
@@ -428,7 +437,19 @@ def observe_final_check(specs):
 
 
 HAND_SPECS = [
-    # known finding: the version converter's fresh name _v_4 in a Loop body and again in the main graph
+    # former finding (fixed by 1c7785c): a model output named like a value the version converter introduces
+    {"args": ["b", "f"], "inputs": [["c", 0], ["x", 1]],
+     "stmts": [["if", 0, {"stmts": [["op", "rmax", 17, [1]], ["op", "identity", 19, [2]]], "outs": [3]},
+                {"stmts": [], "outs": [1]}, 17]],
+     "outputs": [["If_0_then_branch__ReduceMax_0___v_4", 2]], "drop": False, "funcs": [], "models": [],
+     "customs": [], "generics": []},
+    # ... and the same name given to an input (named before the adaptation happens)
+    {"args": ["b", "f"], "inputs": [["c", 0], ["If_0_then_branch__ReduceMax_0___v_4", 1]],
+     "stmts": [["if", 0, {"stmts": [["op", "rmax", 17, [1]], ["op", "identity", 19, [2]]], "outs": [3]},
+                {"stmts": [], "outs": [1]}, 17]],
+     "outputs": [["y", 2]], "drop": False, "funcs": [], "models": [], "customs": [], "generics": []},
+    # former finding (fixed by 6e356ff): the version converter's fresh name _v_4 in a Loop body and again in
+    # the main graph
     {"args": ["f"], "inputs": [["x", 0]],
      "stmts": [["loop", 1, [0], {"stmts": [["op", "rmax", 17, [3]], ["op", "identity", 19, [4]]], "outs": [5]}, 17],
                ["op", "rmax", 17, [1]]],
@@ -541,6 +562,9 @@ def run(ck: core.Check):
         for k in ("if", "loop", "inline", "call"):
             dist[k] += int(s[k] > 0)
         dist["custom_ops"] += int(s.get("custom", 0) > 0)
+        dist["generic_functions"] = dist.get("generic_functions", 0) + int(s.get("callg", 0) > 0)
+        dist["output_named_like_body_value"] = dist.get("output_named_like_body_value", 0) + int(
+            any("_branch__" in n or "_body__" in n for n, _ in r["spec"]["outputs"]))
         dist["max_depth"] = max(dist["max_depth"], s["depth"])
         dist["mixed_versions"] += int(len(s["vers"]) > 1)
         dist["drop_true"] += int(bool(r["spec"].get("drop")))
@@ -636,7 +660,7 @@ def run(ck: core.Check):
             else:
                 ok = o.get("err") == real[1]
                 nst["errors_agree"] += int(ok)
-            if "graph" in o and not o.get("trace_ok"):
+            if "graph" in o and not (o.get("trace_ok") and o.get("names_in_scope")):
                 nst["trace_bad"] += 1
                 ok = False
             if not ok:
@@ -645,6 +669,9 @@ def run(ck: core.Check):
                     ck.broken("correspondence", "C02 naming model vs real Builder names",
                               f"spec={json.dumps(r['spec'])[:900]} model={json.dumps(o)[:700]} real={json.dumps(real)[:700]}")
         nst["mismatches"] = mism
+        if nst["cases"] and nst["skipped"] > 0.3 * nst["cases"]:
+            ck.broken("correspondence", "C02 naming mostly not observable",
+                      f"{nst['skipped']} of {nst['cases']} builds could not be taken apart (real Builder changed?)")
         ck.cov["naming"] = nst
 
     ck.cov["distribution"] = dist
